@@ -162,6 +162,7 @@ func arraysRoundtrip(args []string) int {
 	}
 	for _, c := range cases {
 		w.Write(map[string]any{"start": c.ID})
+		w.w.Flush()
 		done := make(chan arrResult, 1)
 		go func() { done <- arrOne(c) }()
 		select {
